@@ -22,7 +22,10 @@ LOG2PI = math.log(2 * math.pi)
 def build_liesel_model():
     """
     mu ~ N(0, 3); beta ~ N(0, 2) (vector 2); log_sigma ~ N(0, 1); z ~ Bernoulli(0.3)
-    sigma = exp(log_sigma); eta = mu + X beta + 0.5 z; y ~ N(eta, sigma)  (observed)
+    offset: a bare Value node (no Var) with a var-less Dist N(0, 0.5) evaluated at it
+    sigma = exp(log_sigma) is a WEAK variable that also carries a distribution IG(2, 1)
+    eta = mu + X beta + 0.5 z + offset; y ~ N(eta, sigma)  (observed)
+    pred = 2 eta + 1: a derived quantity that feeds no distribution
     """
     import jax.numpy as jnp
     import liesel.model as lsl
@@ -32,20 +35,34 @@ def build_liesel_model():
     beta = lsl.param(jnp.array([0.2, -0.1], dtype=jnp.float32), lsl.Dist(tfd.Normal, loc=0.0, scale=2.0), name="beta")
     log_sigma = lsl.param(jnp.float32(-0.2), lsl.Dist(tfd.Normal, loc=0.0, scale=1.0), name="log_sigma")
     z = lsl.param(jnp.int32(1), lsl.Dist(tfd.Bernoulli, probs=0.3), name="z")
-    sigma = lsl.Var(lsl.Calc(jnp.exp, log_sigma), name="sigma")
+    offset = lsl.Value(jnp.float32(0.05), _name="offset")
+    offset_dist = lsl.Dist(tfd.Normal, loc=0.0, scale=0.5, _name="offset_log_prob")
+    offset_dist.at = offset
+    sigma = lsl.Var(lsl.Calc(jnp.exp, log_sigma), lsl.Dist(tfd.InverseGamma, concentration=2.0, scale=1.0), name="sigma")
+    sigma.parameter = True
     xm = lsl.Var(jnp.asarray(X, dtype=jnp.float32), name="X")
-    eta = lsl.Var(lsl.Calc(lambda m, x, b, zz: m + x @ b + 0.5 * zz, mu, xm, beta, z), name="eta")
+    eta = lsl.Var(lsl.Calc(lambda m, x, b, zz, off: m + x @ b + 0.5 * zz + off, mu, xm, beta, z, offset), name="eta")
     y = lsl.obs(jnp.asarray(Y, dtype=jnp.float32), lsl.Dist(tfd.Normal, loc=eta, scale=sigma), name="y")
-    return lsl.GraphBuilder().add(y).build_model()
+    pred = lsl.Var(lsl.Calc(lambda e: 2.0 * e + 1.0, eta), name="pred")
+    return lsl.GraphBuilder().add(y, pred, offset_dist).build_model()
 
 
-PARAMS = ["mu", "beta", "log_sigma", "z"]
+PARAMS = ["mu", "beta", "log_sigma", "z", "offset"]
+
+
+def param_node(p: str) -> str:
+    """Name of the node that stores parameter p in a model state."""
+    return "offset" if p == "offset" else f"{p}_value"
+
+
+_ETA = {"eta_value", "eta_var_value", "y_log_prob", "pred_value", "pred_var_value"}
 # node names that may change when a parameter changes (reference adjacency, by hand)
 DESCENDANTS = {
-    "mu": {"mu_value", "mu_var_value", "mu_log_prob", "eta_value", "eta_var_value", "y_log_prob"},
-    "beta": {"beta_value", "beta_var_value", "beta_log_prob", "eta_value", "eta_var_value", "y_log_prob"},
-    "log_sigma": {"log_sigma_value", "log_sigma_var_value", "log_sigma_log_prob", "sigma_value", "sigma_var_value", "y_log_prob"},
-    "z": {"z_value", "z_var_value", "z_log_prob", "eta_value", "eta_var_value", "y_log_prob"},
+    "mu": {"mu_value", "mu_var_value", "mu_log_prob"} | _ETA,
+    "beta": {"beta_value", "beta_var_value", "beta_log_prob"} | _ETA,
+    "log_sigma": {"log_sigma_value", "log_sigma_var_value", "log_sigma_log_prob", "sigma_value", "sigma_var_value", "sigma_log_prob", "y_log_prob"},
+    "z": {"z_value", "z_var_value", "z_log_prob"} | _ETA,
+    "offset": {"offset", "offset_log_prob"} | _ETA,
 }
 MODEL_NODES = {"_model_log_prob", "_model_log_prior", "_model_log_lik"}
 
@@ -56,8 +73,9 @@ def ref_liesel(params: dict) -> dict:
     beta = np.asarray(params["beta"], dtype=np.float64)
     ls = float(params["log_sigma"])
     z = int(params["z"])
+    off = float(params["offset"])
     sigma = math.exp(ls)
-    eta = mu + X @ beta + 0.5 * z
+    eta = mu + X @ beta + 0.5 * z + off
 
     def norm_lp(x, m, s):
         return -0.5 * ((x - m) / s) ** 2 - math.log(s) - 0.5 * LOG2PI
@@ -66,25 +84,32 @@ def ref_liesel(params: dict) -> dict:
     lp_beta = norm_lp(beta, 0.0, 2.0)
     lp_ls = norm_lp(ls, 0.0, 1.0)
     lp_z = math.log(0.3) if z == 1 else math.log(0.7)
+    lp_off = norm_lp(off, 0.0, 0.5)
+    a, b = 2.0, 1.0
+    lp_sigma = a * math.log(b) - math.lgamma(a) - (a + 1) * math.log(sigma) - b / sigma
     lp_y = norm_lp(Y, eta, sigma)
-    prior = lp_mu + lp_beta.sum() + lp_ls + lp_z
+    # the var-less offset dist is neither observed nor parameter: it enters log_prob only
+    prior = lp_mu + lp_beta.sum() + lp_ls + lp_z + lp_sigma
     lik = lp_y.sum()
     return {
         "sigma_value": sigma,
         "eta_value": eta,
+        "pred_value": 2.0 * eta + 1.0,
         "mu_log_prob": lp_mu,
         "beta_log_prob": lp_beta,
         "log_sigma_log_prob": lp_ls,
+        "sigma_log_prob": lp_sigma,
         "z_log_prob": lp_z,
+        "offset_log_prob": lp_off,
         "y_log_prob": lp_y,
         "_model_log_prior": prior,
         "_model_log_lik": lik,
-        "_model_log_prob": prior + lik,
+        "_model_log_prob": prior + lik + lp_off,
     }
 
 
 def params_of_state(state) -> dict:
-    return {p: np.asarray(state[f"{p}_value"].value) for p in PARAMS}
+    return {p: np.asarray(state[param_node(p)].value) for p in PARAMS}
 
 
 def state_leaves(state) -> dict:
@@ -175,7 +200,7 @@ def make_kernel(spec: dict, model=None):
             # asymmetric multiplicative-free proposal: x' = x + step * (0.3 + |n|) with a
             # declared correction of log q(x'|x) - log q(x|x') = 0 for the symmetric part;
             # here: symmetric shift, so the correction is 0
-            pos = model_state[f"{key0}_value"].value if f"{key0}_value" in model_state else model_state[key0]
+            pos = model_state[param_node(key0)].value if param_node(key0) in model_state else model_state[key0]
             n = jax.random.normal(key, jnp.shape(pos))
             return gs.MHProposal({key0: pos + step_size * 0.5 * n}, jnp.float32(0.0))
 
